@@ -113,7 +113,20 @@ def c02_cases(tier, seed):
                 steps = [RESET] + [leaf(1 + j, d, [(k * (j + 2)) % 7 - 3 for k in range(n)], trk=trk[j]) for j in range(ar)]
                 steps.append(op(name, list(range(1, ar + 1)), 10, bw=True))
                 cases.append(finish(steps, d, k0=5))
-    return cases
+    # the same matmul / conv cases with SPARSE seeds: whole rows, samples or aligned runs of the adjoint are zero
+    # (an implementation that skips zero work must not skip non-zero work)
+    import copy
+    extra = []
+    for c in cases:
+        if c[-2]["op"] in ("matmul", "conv") and rnd.random() < (0.5 if thorough else 0.35):
+            c2 = copy.deepcopy(c)
+            sd = c2[-1]["seed"]
+            d = sd["d"]
+            run = rnd.choice([d[-1], prod(d[-2:]), 2])
+            vals = FS.zero_runs(prod(d), run, rnd)
+            c2[-1] = backward(10, tensor(d, [PRIMES[k % 40] if v else 0 for k, v in enumerate(vals)]))
+            extra.append(c2)
+    return cases + extra
 
 
 # ---------------------------------------------------------------------------------------------
@@ -518,10 +531,86 @@ def c11_cases(tier, seed):
             g.emit(name, [g.pick() for _ in range(ar)], d)
             if rnd.random() < 0.15:
                 g.handle_step()
-        g.backward(h=max(g.H))
+        root = max(g.H)
+        if rnd.random() < 0.5:
+            # intermediates whose handles are gone before the pass: the graph's own edges are the only references left
+            for h in [h for h in list(g.H) if h != root and rnd.random() < 0.6]:
+                if sum(1 for x in g.H) > 1:
+                    g.steps.append({"op": "drop", "args": [h]})
+                    del g.H[h]
+        g.backward(h=root)
         if rnd.random() < 0.5:
             g.backward()
         cases.append(g.steps)
+    # a one-operand user operation consumed at exactly two positions (two parents, or twice by one parent), its own
+    # handle alive or dropped before the pass
+    for d in ([1], [3], [2, 2]):
+        n = prod(d)
+        for shape_ in ("two_parents", "twice_by_one", "three_uses", "chain_of_two"):
+            for dropped in (False, True):
+                for first in ("csq", "cmul"):
+                    steps = [RESET, leaf(1, d, [PRIMES[k] for k in range(n)], trk=True), leaf(2, d, [PRIMES[5 + k] for k in range(n)], trk=True)]
+                    steps.append(op(first, [1] if first == "csq" else [1, 2], 3, bw=True))
+                    if shape_ == "two_parents":
+                        steps += [op("csq", [3], 4, bw=True), op("cmul", [3, 2], 5, bw=True), op("cadd", [4, 5], 6, bw=True)]
+                    elif shape_ == "twice_by_one":
+                        steps += [op("cmul", [3, 3], 6, bw=True)]
+                    elif shape_ == "three_uses":
+                        steps += [op("cfma", [3, 3, 3], 6, bw=True)]
+                    else:
+                        steps += [op("csq", [3], 4, bw=True), op("cadd", [4, 3], 5, bw=True), op("cmul", [5, 4], 6, bw=True)]
+                    if dropped:
+                        steps += [{"op": "drop", "args": [h]} for h in (3, 4, 5) if any(s.get("res") == h for s in steps)]
+                    steps.append(backward(6, tensor(d, [PRIMES[10 + k] for k in range(n)])))
+                    steps.append(backward(6))
+                    cases.append(steps)
+    return cases
+
+
+def seed_view_cases(tier, seed):
+    """C08: seeds and fetched gradients that SHARE STORAGE with live handles (reshaped views), then further passes
+    on the same root and on views of it: whatever the engine does with the arrays it was handed or handed out, the
+    values seen through every live handle stay what they were (digest of every live handle at every event)."""
+    rnd = random.Random(seed)
+    cases = []
+    roots = [("mul", 2), ("neg", 1), ("scale", 1), ("relu", 1), ("add", 2), ("csq", 1), ("matmul", 2), ("reshape", 1), ("sum0", 1), ("powf", 1)]
+    for d in ([2], [3], [2, 2], [2, 3]):
+        n = prod(d)
+        for name, ar in roots:
+            for variant in ("seed_view", "grad_view", "root_view"):
+                steps = [RESET, leaf(1, d, [PRIMES[k] * (-1 if k % 3 == 1 else 1) for k in range(n)], trk=True),
+                         leaf(2, d, [PRIMES[7 + k] for k in range(n)], trk=rnd.random() < 0.5),
+                         leaf(3, [n], [PRIMES[15 + k] for k in range(n)]), leaf(4, [1, n], [PRIMES[20 + k] * (-1 if k % 2 else 1) for k in range(n)])]
+                if name == "matmul":
+                    if len(d) != 2:
+                        continue
+                    steps.append(op("matmul", [1, 2], 10, ta=False, tb=True))
+                    od = [d[0], d[0]]
+                elif name == "reshape":
+                    steps.append(op("reshape", [1], 10, d=[n, 1]))
+                    od = [n, 1]
+                elif name == "sum0":
+                    steps.append(op("sum", [1], 10, k=0))
+                    od = d
+                else:
+                    par = {"scale": {"c": sc(3)}, "powf": {"p": {"n": 2}}, "csq": {"bw": True}}.get(name, {})
+                    steps.append(op(name, [1, 2][:ar], 10, **par))
+                    od = d
+                m = prod(od)
+                if m != n:
+                    steps += [leaf(3, [m], [PRIMES[15 + k] for k in range(m)]), leaf(4, [1, m], [PRIMES[20 + k] for k in range(m)])]
+                fresh = backward(10, tensor(od, [PRIMES[30 + k] for k in range(m)]))
+                if variant == "seed_view":
+                    steps += [dict(backward(10), seedv=3, seedd=od), fresh, dict(backward(10), seedv=4, seedd=od), backward(10),
+                              dict(backward(10), seedv=3, seedd=od)]
+                elif variant == "grad_view":
+                    steps += [fresh, {"op": "grad", "args": [10], "res": 20}, op("reshape", [20], 21, d=[m]), backward(10), fresh,
+                              {"op": "grad", "args": [1], "res": 22}, op("reshape", [22], 23, d=[1, n]), backward(10), {"op": "drop", "args": [20]},
+                              backward(10)]
+                else:
+                    steps += [op("reshape", [10], 11, d=[1, m]), backward(11), {"op": "grad", "args": [11], "res": 20},
+                              {"op": "grad", "args": [10], "res": 21}, backward(10), fresh, backward(11), backward(10)]
+                cases.append(steps)
     return cases
 
 
@@ -631,6 +720,25 @@ def c17_cases(tier, seed):
                 steps += grads_of([1, 2, 3])
                 steps.append(backward(4))
                 cases.append(steps)
+    # dense-layer and conv shaped programs with seeds in which whole samples / rows are zero: s1 sparse, s2 dense,
+    # and their combination (the adjoint is the transposed left operand of the weight-gradient product)
+    for b in (2, 3):
+        for i_, o_ in ((1, 2), (2, 2), (3, 2), (2, 3), (2, 1)):
+            for zero_at in range(b):
+                s1 = [0 if k // o_ == zero_at else PRIMES[k] for k in range(b * o_)]
+                s2 = [PRIMES[11 + k] * (-1 if k % 2 else 1) for k in range(b * o_)]
+                for sd in (s1, s2, [2 * x - 3 * y for x, y in zip(s1, s2)]):
+                    steps = [RESET, leaf(1, [b, i_], [(k % 5) + 1 for k in range(b * i_)], trk=True),
+                             leaf(2, [o_, i_], [(k % 7) - 3 for k in range(o_ * i_)], trk=True), leaf(3, [o_], list(range(1, o_ + 1)), trk=True),
+                             op("matmul", [1, 2, 3], 4, ta=False, tb=True), backward(4, tensor([b, o_], sd))]
+                    cases.append(steps + grads_of([1, 2, 3]))
+    for zero_at in range(2):
+        s1 = [0 if k // 4 == zero_at else PRIMES[k] for k in range(8)]
+        s2 = [PRIMES[9 + k] for k in range(8)]
+        for sd in (s1, s2, [2 * x - 3 * y for x, y in zip(s1, s2)]):
+            steps = FS.conv_case([2], 1, 3, 3, 1, 2, 2, 1, 1, trk=(True, True))
+            steps[-1] = op("conv", [1, 2], 4, sr=1, sc=1)
+            cases.append(steps + [backward(4, tensor([2, 1, 2, 2], sd))] + grads_of([1, 2]))
     # alpha*s1 + beta*s2 on random programs: three fresh instances of the same program
     n = 900 if tier == "thorough" else 150
     for _ in range(n):
